@@ -43,6 +43,11 @@ structure Cfg where
   permitted  : Nat := 1           -- permitted_calls_in_half_open
   cls        : Nat := 0           -- failure classifier (0 default, 1 only kind 1, 2 errors + odd tags)
   fallback   : Bool := false
+  -- All instants and configured durations are whole clock ticks (the model is unit-free). Scripted latencies
+  -- (`inner=`, `fb=`) are tokio timers in MILLISECONDS: `msTicks` = ticks per millisecond (1; 1000 in `tick=us` cases)
+  msTicks    : Nat := 1
+  -- `listen = false`: the breaker has no event listener at all (no `transition` lines in the log; same behaviour)
+  listen     : Bool := true
 deriving Repr
 
 /-- one recorded outcome -/
@@ -276,11 +281,17 @@ def fbRes (c : Nat) : Out → Res
   | .panic => .panic
   | .never => .panic
 
+/-- the instant at which a scripted latency of `lat` ms, started at `now`, is over. A tokio timer fires at the first
+millisecond boundary `≥ now + lat` ms (boundaries counted from the start of the case); latency 0 = no timer at all.
+With one tick per millisecond this is `now + lat`. -/
+def due (cfg : Cfg) (now lat : Nat) : Nat :=
+  if lat = 0 then now else (now + lat * cfg.msTicks + (cfg.msTicks - 1)) / cfg.msTicks * cfg.msTicks
+
 /-- a rejected caller is handed to the fallback: the handler is invoked and its future polled once, in
 the rejecting step and outside every critical section; if it is not finished the caller waits in `falling` -/
-def startFallback (s : State) (f : Fresh) : State :=
+def startFallback (cfg : Cfg) (s : State) (f : Fresh) : State :=
   if f.fb.lat = 0 ∧ f.fb.out ≠ .never then emit s [.fbCall f.c, .result f.c (fbRes f.c f.fb.out)]
-  else emit { s with falling := s.falling ++ [{ c := f.c, doneAt := s.now + f.fb.lat, out := f.fb.out }] } [.fbCall f.c]
+  else emit { s with falling := s.falling ++ [{ c := f.c, doneAt := due cfg s.now f.fb.lat, out := f.fb.out }] } [.fbCall f.c]
 
 /-- the fallback future of `falling` caller `r` is polled: nothing of the breaker is involved -/
 def pollFalling (s : State) (r : Falling) : State :=
@@ -320,10 +331,10 @@ def admitStep (cfg : Cfg) (s : State) (f : Fresh) : State × Bool :=
   let s := emit { s with circ := acq.1 } acq.2.2
   if acq.2.1 then
     let ep := if acq.1.st = .halfOpen then some acq.1.episode else none
-    let r : Caller := { c := f.c, k := s.serial, start := s.now, doneAt := s.now + f.sc.lat, out := f.sc.out,
+    let r : Caller := { c := f.c, k := s.serial, start := s.now, doneAt := due cfg s.now f.sc.lat, out := f.sc.out,
                         tag := f.tag, ep := ep }
     (emit { s with running := s.running ++ [r], serial := s.serial + 1 } [.innerCall f.c s.serial], true)
-  else if cfg.fallback then (startFallback s f, false)
+  else if cfg.fallback then (startFallback cfg s f, false)
   else (emit s [.result f.c .openCircuit], false)
 
 /-- first poll: admission, then the inner future is polled in the same step -/
@@ -392,7 +403,9 @@ def parseCfg (kv : Kv) : Cfg :=
     minCalls := (kv.optNat "min").getD size,
     frNum := fr.1, frDen := fr.2, slowMs := kv.optNat "slow", srNum := sr.1, srDen := sr.2,
     waitMs := (if kv.str "wait" "" = "max" then 10 ^ 30 else kv.nat "wait" 1000), permitted := kv.nat "permitted" 1, cls := kv.nat "cls" 0,
-    fallback := kv.nat "fallback" 0 == 1 }
+    fallback := kv.nat "fallback" 0 == 1,
+    msTicks := (if kv.str "tick" "ms" = "us" then 1000 else 1),
+    listen := kv.nat "listen" 1 != 0 }
 
 def parseOp (ws : List String) : Option Op :=
   match ws with
@@ -415,7 +428,11 @@ def machine : Machine where
   init kv := (parseCfg kv, init)
   step := fun (cfg, s) ws =>
     match parseOp ws with
-    | some op => let s' := stepS cfg s op; ((cfg, s'), (s'.log.drop s.log.length).map (fun p => p.2.toEv))
+    | some op =>
+        let s' := stepS cfg s op
+        -- without a listener nobody is told about transitions: they are not part of the observable log
+        let evs := (s'.log.drop s.log.length).filter (fun p => cfg.listen || !(p.2 matches .transition ..))
+        ((cfg, s'), evs.map (fun p => p.2.toEv))
     | none => ((cfg, s), [])
   now := fun (_, s) => s.now
 
